@@ -955,7 +955,7 @@ func TestVerifSched(t *testing.T) {
 		PanicProps: []string{"C02"},
 		Real:       []string{"server/sched.go (instrumented, unmodified logic)", "envconfig", "llm.LoadModel + fs/ggml decode of real GGUF files", "llm.PredictServerFit / EstimateGPULayers", "discover.GpuInfoList helpers"},
 		Stub:       []string{"llm.LlamaServer (simLlama: tape-drawn load time/outcome, ping faults, close monitor)", "GPU discovery (simInventory: tape-drawn devices, usage = sum of live estimates, cuda free-memory lag)", "HTTP layer (clients call GetRunner/expireRunner exactly as routes.go scheduleRunner does)"},
-		Rule: map[string]string{"*": "one evaluation = one simulated execution of the real Scheduler (both loops, timers, helper goroutines) against 2-16 tape-drawn clients over 1-4 models, with a tape-drawn configuration (limits, GPU inventory, fault rates) and a tape-drawn interleaving; non-trivial = at some step at least two tasks were runnable and at least one runner was started; distinct = different hash of the whole (task, label, simulated time) decision sequence"},
+		Rule:       map[string]string{"*": "one evaluation = one simulated execution of the real Scheduler (both loops, timers, helper goroutines) against 2-16 tape-drawn clients over 1-4 models, with a tape-drawn configuration (limits, GPU inventory, fault rates) and a tape-drawn interleaving; non-trivial = at some step at least two tasks were runnable and at least one runner was started; distinct = different hash of the whole (task, label, simulated time) decision sequence"},
 		NonTrivial: func(prop string, r *verifsim.Result) bool { return r.MaxRunnable >= 2 && r.Info["runners_started"] > 0 },
 		Assumptions: []string{"instrumentation (yields at synchronisation points, mutex type swap, select/map-range determinisation) preserves single-threaded semantics",
 			"testing/synctest fake clock and quiescence detection", "pre-emption only at synchronisation points (channel ops, locks, sleeps, timers, stub calls)",
